@@ -145,6 +145,22 @@ def p_C14(ctx):
     flow_trace(ctx, "sqrt", 4000, 80000, chunk=400)
 
 
+def p_C11(ctx):
+    flow_trace(ctx, "gt", 1500, 30000, chunk=120)
+
+
+def p_C01(ctx):
+    flow_trace(ctx, "pairing", 330, 6000, chunk=24, extra=["--focus", "laws"])
+
+
+def p_C02(ctx):
+    flow_trace(ctx, "pairing", 240, 4800, chunk=18, extra=["--focus", "vector"])
+
+
+def p_C03(ctx):
+    flow_trace(ctx, "pairing", 420, 8000, chunk=30, extra=["--focus", "agree"])
+
+
 def compare_profiles(ctx, suite, a, b):
     """C08/C18: the same driver source built twice must record the same events (field by field)."""
     n = 0
@@ -166,12 +182,16 @@ def compare_profiles(ctx, suite, a, b):
 
 
 PROPS = {
+    "C01": p_C01,
+    "C02": p_C02,
+    "C03": p_C03,
     "C04": p_C04,
     "C05": p_C05,
     "C06": p_C06,
     "C08": p_C08,
     "C09": p_C09,
     "C10": p_C10,
+    "C11": p_C11,
     "C12": p_C12,
     "C13": p_C13,
     "C14": p_C14,
